@@ -53,7 +53,11 @@ def replay(b: dict) -> list[tuple[str, str]]:
     ed = _EDITOR
     findings: list[tuple[str, str]] = []
     files = sorted(b['inc'])
-    root = tempfile.mkdtemp(prefix='verif_c16_')
+    top = tempfile.mkdtemp(prefix='verif_c16_')
+    # every other session lives in a directory whose NAME contains glob metacharacters: include patterns are
+    # resolved relative to it, and only the pattern itself may be read as a pattern
+    root = os.path.join(top, 'led[1]' if len(json.dumps(b, sort_keys=True)) % 2 == 0 else 'ledger')
+    os.makedirs(root)
     cwd0 = os.getcwd()
     try:
         orig: dict[str, bytes] = {}
@@ -214,7 +218,7 @@ def replay(b: dict) -> list[tuple[str, str]]:
             findings.append(('extra', f'unexpected files created: {extra}'))
     finally:
         os.chdir(cwd0)
-        shutil.rmtree(root, ignore_errors=True)
+        shutil.rmtree(top, ignore_errors=True)
     return findings
 
 
